@@ -20,9 +20,45 @@ pub struct Run {
     pub signal: bool,
     pub stdout: Vec<u8>,
     pub stderr: Vec<u8>,
+    /// the tool was still running after 60 s and, started again on the same input, after 180 s
+    pub hung: bool,
 }
 
+/// Non-termination is a violation of C20 ("to the end ... exits successfully"), but wall-clock time is a
+/// poor oracle: the limit is four to five orders of magnitude above what the largest generated stream
+/// needs, and a stream is only called hanging after a second, longer attempt on an otherwise idle pipe.
 pub fn run_cli(input: &[u8]) -> Run {
+    use std::sync::atomic::{AtomicBool, Ordering};
+    // once one stream has been confirmed to hang the tool, the variants tried while shrinking it get 5 s
+    // (still a thousand times what a stream of that size needs); never true on a tree without a hang
+    static CONFIRMED: AtomicBool = AtomicBool::new(false);
+    if CONFIRMED.load(Ordering::Relaxed) && input.len() < 100_000 {
+        return match run_cli_limit(input, 5) {
+            Some(r) => r,
+            None => Run { status: None, signal: false, stdout: Vec::new(), stderr: Vec::new(), hung: true },
+        };
+    }
+    if let Some(r) = run_cli_limit(input, 60) {
+        return r;
+    }
+    if let Some(r) = run_cli_limit(input, 180) {
+        return r;
+    }
+    CONFIRMED.store(true, Ordering::Relaxed);
+    Run { status: None, signal: false, stdout: Vec::new(), stderr: Vec::new(), hung: true }
+}
+
+pub const HUNG: &str = "still running 60 s after end of input was sent and, started again on the same stream, after 180 s; killed";
+
+fn run_cli_limit(input: &[u8], limit_s: u64) -> Option<Run> {
+    // the wait below has its own limit; the in-process watchdog is for library calls
+    crate::engine::watchdog_touch();
+    let r = run_cli_limit_inner(input, limit_s);
+    crate::engine::watchdog_touch();
+    r
+}
+
+fn run_cli_limit_inner(input: &[u8], limit_s: u64) -> Option<Run> {
     let mut child = Command::new(CLI)
         .stdin(Stdio::piped())
         .stdout(Stdio::piped())
@@ -53,10 +89,15 @@ pub fn run_cli(input: &[u8]) -> Run {
         match child.try_wait() {
             Ok(Some(s)) => break s,
             Ok(None) => {
-                if t0.elapsed() > Duration::from_secs(60) {
+                if t0.elapsed() > Duration::from_secs(limit_s) {
                     let _ = child.kill();
-                    infra_error("the CLI did not finish within 60 s wall clock; inconclusive");
+                    let _ = child.wait();
+                    let _ = w.join();
+                    let _ = ro.join();
+                    let _ = re.join();
+                    return None;
                 }
+                crate::engine::watchdog_touch();
                 std::thread::sleep(Duration::from_micros(200));
             }
             Err(e) => infra_error(&format!("wait on the CLI failed: {}", e)),
@@ -65,7 +106,7 @@ pub fn run_cli(input: &[u8]) -> Run {
     let _ = w.join();
     let stdout = ro.join().unwrap_or_default();
     let stderr = re.join().unwrap_or_default();
-    Run { status: status.code(), signal: status.code().is_none(), stdout, stderr }
+    Some(Run { status: status.code(), signal: status.code().is_none(), stdout, stderr, hung: false })
 }
 
 /// the lines `BufRead::split(b'\n')` yields
@@ -134,6 +175,9 @@ fn check_model_predicted(bytes: &[u8], rec: &mut Rec) -> Verdict {
     let r = run_cli(bytes);
     rec.evals += 1;
     let tail = |v: &[u8]| crate::util::clip(&esc(&v[v.len().saturating_sub(300)..]), 400);
+    if r.hung {
+        return Verdict::fail("the tool reaches the end of its input and exits", HUNG.to_string());
+    }
     if r.signal || r.status != Some(0) {
         return Verdict::fail("exit status 0 at end of input", format!("exit {:?}; stderr tail: {}", r.status, tail(&r.stderr)));
     }
@@ -202,6 +246,9 @@ pub fn check(sub: &str, _cfg: &'static dyn Config, input: &Input, rec: &mut Rec)
     }
     let r = run_cli(bytes);
     rec.evals += 1;
+    if r.hung {
+        return Verdict::fail("the tool reaches the end of its input and exits", HUNG.to_string());
+    }
     let out_recs = records(&r.stdout);
     let err_recs = records(&r.stderr);
     if rec.want_note {
